@@ -77,8 +77,14 @@ func dataPtr(b []byte) uintptr {
 	return uintptr(unsafe.Pointer(unsafe.SliceData(b[:1])))
 }
 
-func runPoolCase(c *PoolCase) *PoolResult {
-	res := &PoolResult{ID: c.ID, Fails: []Fail{}}
+func runPoolCase(c *PoolCase) (res *PoolResult) {
+	res = &PoolResult{ID: c.ID, Fails: []Fail{}}
+	defer func() {
+		if r := recover(); r != nil {
+			// the driver only touches what Get handed out: a panic here means that was not a usable buffer
+			res.Fails = append(res.Fails, Fail{Prop: "C19", Key: "unusable-buffer", Msg: fmt.Sprintf("%s pool(max %d): using a buffer obtained from Get panicked: %v", c.Kind, c.Max, r)})
+		}
+	}()
 	if c.Stress > 0 {
 		runPoolStress(c, res)
 		return res
@@ -261,6 +267,12 @@ func runPoolStress(c *PoolCase, res *PoolResult) {
 		wg.Add(1)
 		go func(g int) {
 			defer wg.Done()
+			defer func() {
+				if r := recover(); r != nil {
+					// using what Get returned (or handing it back) blew up: a nil / cleared slice header, an index out of range
+					fail("unusable-buffer", fmt.Sprintf("%s pool(max %d): using a buffer obtained from Get under concurrent use panicked: %v", c.Kind, c.Max, r))
+				}
+			}()
 			rnd := rand.New(rand.NewSource(c.Seed + int64(g)))
 			for time.Now().Before(deadline) {
 				n := c.Sizes[rnd.Intn(len(c.Sizes))]
